@@ -1265,8 +1265,9 @@ class EtreeElementNode(ElementNode):
                             if particle.name == node.name:
                                 xsd_element = particle  # a declaration wins over wildcards
                                 break
-                            elif xsd_element is None and particle.is_matching(node.name):
-                                xsd_element = particle
+                            elif particle.is_matching(node.name) and (xsd_element is None or
+                                    xsd_element.name is None and particle.name is not None):
+                                xsd_element = particle  # a substitution head wins over wildcards
                         if xsd_element is not None:
                             if getattr(xsd_element, 'process_contents', None) == 'skip':
                                 xsd_element = None  # not assessed: no declaration applies
